@@ -273,4 +273,239 @@ theorem walkPre_mono (c : Cfg) {r r' : Rd} (h : RdLe r r') (e : Nat) (fuel off :
                   · rename_i h7; rw [if_neg h7] at hx; exact ih _ _ hx
                 · rename_i h6; rw [if_neg h6] at hx; exact ih _ _ hx
 
+
+/-! ### what `_read_ndef_data` returning `L` means -/
+structure ReadsAs (c : Cfg) (m : Bytes) (L : Layout) : Prop where
+  magic : rd c m c.ccBase = .ok 0xE1
+  ver : ∃ v, rd c m (c.ccBase + 1) = .ok v ∧ v / 16 = 1
+  acc : ∃ a, rd c m (c.ccBase + 3) = .ok a ∧ L.readable = decide (a / 16 = 0) ∧ L.writeable = decide (a % 16 = 0)
+  size : ∃ sz, rd c m (c.ccBase + 2) = .ok sz ∧ L.areaEnd = c.areaEnd sz
+  pre : walkPre c (rd c m) L.areaEnd (L.areaEnd + 1) c.dataStart (c.initSkip L.areaEnd) = .ok (.found L.off L.skip)
+  value : ∃ lv, readLen (rd c m) (L.off + 1) = .ok lv ∧ fetch (rd c m) L.skip lv.1 lv.2 = .ok L.ndef
+  cap : L.cap = capacity L.skip L.off L.areaEnd
+
+theorem readNdefRaw_iff (c : Cfg) (m : Bytes) (L : Layout) :
+    readNdefRaw c m = .ok (some L) ↔ ReadsAs c m L := by
+  constructor
+  · intro h
+    unfold readNdefRaw at h
+    obtain ⟨magic, hmagic, h⟩ := Py.bind_eq_ok.1 h
+    split at h
+    · cases h
+    rename_i hm
+    obtain ⟨ver, hver, h⟩ := Py.bind_eq_ok.1 h
+    split at h
+    · cases h
+    rename_i hv
+    obtain ⟨acc, hacc, h⟩ := Py.bind_eq_ok.1 h
+    obtain ⟨sz, hsz, h⟩ := Py.bind_eq_ok.1 h
+    obtain ⟨p, hp, h⟩ := Py.bind_eq_ok.1 h
+    cases p with
+    | absent o s => cases h
+    | found off skip =>
+      simp only at h
+      obtain ⟨lv, hlv, h⟩ := Py.bind_eq_ok.1 h
+      obtain ⟨v, hv', h⟩ := Py.bind_eq_ok.1 h
+      injection h with h; injection h with h; subst h
+      simp only [Decidable.not_not] at hm hv
+      exact ⟨by rw [hmagic, hm], ⟨ver, hver, hv⟩, ⟨acc, hacc, rfl, rfl⟩, ⟨sz, hsz, rfl⟩, hp, ⟨lv, hlv, hv'⟩, rfl⟩
+  · intro ⟨hmagic, ⟨ver, hver, hv⟩, ⟨acc, hacc, hr, hw⟩, ⟨sz, hsz, he⟩, hp, ⟨lv, hlv, hv'⟩, hc⟩
+    unfold readNdefRaw
+    rw [hmagic, Py.bind_ok, if_neg (by simp), hver, Py.bind_ok, if_neg (by simp [hv]), hacc, Py.bind_ok, hsz, Py.bind_ok]
+    simp only
+    rw [← he, hp, Py.bind_ok]
+    simp only
+    rw [hlv, Py.bind_ok, hv', Py.bind_ok]
+    cases L; simp_all
+
+theorem readNdef_some (c : Cfg) (m : Bytes) (L : Layout) :
+    readNdef c m = .ok (some L) ↔ ReadsAs c m L := by
+  rw [← readNdefRaw_iff]
+  unfold readNdef
+  constructor
+  · intro h; split at h
+    · split at h <;> cases h
+    · exact h
+  · intro h; rw [h]
+
+
+theorem countFree_le (s : Skip) (a b : Nat) : countFree s a b ≤ b - a := cfree_le _ _ _
+
+/-- arithmetic content of `get_capacity`: a message that respects the capacity fits with its header -/
+theorem cap_fits (s : Skip) (off e n : Nat) (h : (n : Int) ≤ capacity s off e) :
+    n + hdrLen n ≤ countFree s off e := by
+  have hc : capacity s off e = if countFree s off e > 256 then (countFree s off e : Int) - 4
+      else (countFree s off e : Int) - 2 := rfl
+  rw [hc] at h
+  unfold hdrLen
+  split at h <;> split <;> omega
+
+theorem endAddr_le_area (s : Skip) (off e n : Nat) (h : (n : Int) ≤ capacity s off e) :
+    off + hdrLen n + n ≤ e ∧ endAddr s n (off + hdrLen n) ≤ e := by
+  have h1 := cap_fits s off e n h
+  have h2 := countFree_le s off e
+  have hh2 : 2 ≤ hdrLen n := by unfold hdrLen; split <;> omega
+  have hh : hdrLen n ≤ e - off := by omega
+  refine ⟨by omega, ?_⟩
+  have hs := cfree_split s off (hdrLen n) (e - off - hdrLen n)
+  have h3 := cfree_le s off (hdrLen n)
+  have e1 : hdrLen n + (e - off - hdrLen n) = e - off := by omega
+  rw [e1] at hs
+  unfold countFree at h1
+  have := endAddr_le_of_cfree s n (off + hdrLen n) (e - off - hdrLen n) (by omega)
+  omega
+
+/-- everything later proofs need to know about the three images of a write -/
+structure WriteSpec (c : Cfg) (m : Bytes) (L : Layout) (data : Bytes) (m1 m2 m3 : Bytes) : Prop where
+  p1 : phase1 c m L.off = .ok m1
+  p2 : phase2 c m1 L.off L.skip L.areaEnd data = .ok m2
+  p3 : phase3 c m2 L.off data.length = .ok m3
+  m1_eq : m1 = m.set (L.off + 1) 0
+  len2 : m2.length = m.length
+  /-- phase 2 changes only free bytes of the area behind the length field -/
+  m2_same : ∀ x, m2[x]? ≠ m1[x]? → L.off + hdrLen data.length ≤ x ∧ x < L.areaEnd ∧ inSkip L.skip x = false
+  m2_val : fetch (rd c m2) L.skip data.length (L.off + hdrLen data.length) = .ok data
+  m3_eq : m3 = if data.length < 255 then m2.set (L.off + 1) data.length
+               else ((m2.set (L.off + 1) 0xFF).set (L.off + 2) (data.length / 256)).set (L.off + 3) (data.length % 256)
+  fits : L.off + hdrLen data.length + data.length ≤ L.areaEnd
+  endv : endAddr L.skip data.length (L.off + hdrLen data.length) ≤ L.areaEnd
+  area : L.areaEnd ≤ m.length
+
+theorem write_spec (c : Cfg) (m : Bytes) (L : Layout) (data : Bytes)
+    (hcapEq : L.cap = capacity L.skip L.off L.areaEnd) (harea : L.areaEnd ≤ m.length)
+    (hcap : (data.length : Int) ≤ L.cap) :
+    ∃ m1 m2 m3, WriteSpec c m L data m1 m2 m3 := by
+  rw [hcapEq] at hcap
+  obtain ⟨hfit, hend⟩ := endAddr_le_area L.skip L.off L.areaEnd data.length hcap
+  have hh2 : 2 ≤ hdrLen data.length := by unfold hdrLen; split <;> omega
+  have l1 : (m.set (L.off + 1) 0).length = m.length := by simp
+  obtain ⟨m2', hp, hl2, hsame, hf⟩ := place_spec c L.skip data (m.set (L.off + 1) 0) (L.off + hdrLen data.length)
+    (by rw [l1]; omega)
+  -- terminator
+  have hphase2 : ∃ m2, phase2 c (m.set (L.off + 1) 0) L.off L.skip L.areaEnd data = .ok m2 ∧ m2.length = m.length ∧
+      (∀ x, m2[x]? ≠ (m.set (L.off + 1) 0)[x]? → L.off + hdrLen data.length ≤ x ∧ x < L.areaEnd ∧ inSkip L.skip x = false) ∧
+      fetch (rd c m2) L.skip data.length (L.off + hdrLen data.length) = .ok data := by
+    have hchg : ∀ x, m2'[x]? ≠ (m.set (L.off + 1) 0)[x]? →
+        L.off + hdrLen data.length ≤ x ∧ x < L.areaEnd ∧ inSkip L.skip x = false := by
+      intro x hx
+      have h1 : ¬ x < L.off + hdrLen data.length := fun h => hx (hsame x (Or.inl h))
+      have h2 : ¬ inSkip L.skip x = true := fun h => hx (hsame x (Or.inr (Or.inl h)))
+      have h3 : ¬ endAddr L.skip data.length (L.off + hdrLen data.length) ≤ x := fun h => hx (hsame x (Or.inr (Or.inr h)))
+      refine ⟨by omega, by omega, by simpa using h2⟩
+    unfold phase2
+    rw [hp, Py.bind_ok]
+    simp only
+    split
+    · rename_i ht
+      have htge := nextFree_ge L.skip (endAddr L.skip data.length (L.off + hdrLen data.length))
+      have hege := endAddr_ge L.skip data.length (L.off + hdrLen data.length)
+      rw [wr_ok c m2' _ _ (by rw [hl2, l1]; omega)]
+      refine ⟨_, rfl, by simp [hl2], ?_, ?_⟩
+      · intro x hx
+        by_cases hxt : nextFree L.skip (endAddr L.skip data.length (L.off + hdrLen data.length)) = x
+        · subst hxt
+          exact ⟨by omega, ht, nextFree_not_skip _ _⟩
+        · rw [get_set_ne _ _ _ _ hxt] at hx; exact hchg x hx
+      · rw [fetch_congr c L.skip m2' _ _ _ (fun x h1 h2 => get_set_ne _ _ _ _ (by omega))]; exact hf
+    · exact ⟨m2', rfl, by rw [hl2, l1], hchg, hf⟩
+  obtain ⟨m2, hp2, hlen2, hm2same, hm2val⟩ := hphase2
+  have hp1 : phase1 c m L.off = .ok (m.set (L.off + 1) 0) := wr_ok c m _ _ (by omega)
+  by_cases hn : data.length < 255
+  · refine ⟨_, m2, m2.set (L.off + 1) data.length, hp1, hp2, ?_, rfl, hlen2, hm2same, hm2val, by simp [hn], hfit, hend, harea⟩
+    unfold phase3; rw [if_pos hn]; exact wr_ok c m2 _ _ (by omega)
+  · have h4 : hdrLen data.length = 4 := by unfold hdrLen; simp [hn]
+    refine ⟨_, m2, ((m2.set (L.off + 1) 0xFF).set (L.off + 2) (data.length / 256)).set (L.off + 3) (data.length % 256),
+      hp1, hp2, ?_, rfl, hlen2, hm2same, hm2val, by simp [hn], hfit, hend, harea⟩
+    unfold phase3; rw [if_neg hn]
+    rw [wr_ok c m2 _ _ (by omega), Py.bind_ok, wr_ok c _ _ _ (by simp; omega), Py.bind_ok, wr_ok c _ _ _ (by simp; omega)]
+
+
+theorem WriteSpec.len1 {c m L data m1 m2 m3} (w : WriteSpec c m L data m1 m2 m3) : m1.length = m.length := by
+  rw [w.m1_eq]; simp
+
+theorem WriteSpec.len3 {c m L data m1 m2 m3} (w : WriteSpec c m L data m1 m2 m3) : m3.length = m.length := by
+  rw [w.m3_eq, ← w.len2]; split <;> simp
+
+theorem hdrLen_ge (n : Nat) : 2 ≤ hdrLen n := by unfold hdrLen; split <;> omega
+
+/-- phase 2 leaves everything in front of the value untouched -/
+theorem WriteSpec.m2_below {c m L data m1 m2 m3} (w : WriteSpec c m L data m1 m2 m3) (x : Nat)
+    (h : x < L.off + hdrLen data.length) : m2[x]? = m1[x]? := by
+  by_cases hx : m2[x]? = m1[x]?
+  · exact hx
+  · have := w.m2_same x hx; omega
+
+/-- the final image differs from phase 2 only inside the length field -/
+theorem WriteSpec.m3_out {c m L data m1 m2 m3} (w : WriteSpec c m L data m1 m2 m3) (x : Nat)
+    (h : x < L.off + 1 ∨ L.off + hdrLen data.length ≤ x) : m3[x]? = m2[x]? := by
+  rw [w.m3_eq]
+  split
+  · rename_i hn
+    have : hdrLen data.length = 2 := by unfold hdrLen; simp [hn]
+    exact get_set_ne _ _ _ _ (by omega)
+  · rename_i hn
+    have : hdrLen data.length = 4 := by unfold hdrLen; simp [hn]
+    rw [get_set_ne _ _ _ _ (by omega), get_set_ne _ _ _ _ (by omega), get_set_ne _ _ _ _ (by omega)]
+
+theorem WriteSpec.below {c m L data m1 m2 m3} (w : WriteSpec c m L data m1 m2 m3) (x : Nat) (h : x < L.off + 1) :
+    m1[x]? = m[x]? ∧ m2[x]? = m[x]? ∧ m3[x]? = m[x]? := by
+  have h1 : m1[x]? = m[x]? := by rw [w.m1_eq]; exact get_set_ne _ _ _ _ (by omega)
+  have hh := hdrLen_ge data.length
+  have h2 : m2[x]? = m[x]? := by rw [w.m2_below x (by omega), h1]
+  exact ⟨h1, h2, by rw [w.m3_out x (Or.inl h), h2]⟩
+
+/-- the header of the walk (everything in front of the NDEF TLV's length field) is stable
+under changes behind it -/
+theorem pre_stable (c : Cfg) (m m' : Bytes) (L : Layout) (hwf : WF c m L)
+    (h : ∀ x, x < L.off + 1 → m'[x]? = m[x]?) :
+    walkPre c (rd c m') L.areaEnd (L.areaEnd + 1) c.dataStart (c.initSkip L.areaEnd) = .ok (.found L.off L.skip) := by
+  obtain ⟨_, _, _, _, hdr, _⟩ := hwf
+  rw [← rdB_congr c (L.off + 1) m m' h] at hdr
+  exact walkPre_mono c (rdB_le c _ m') _ _ _ _ _ _ hdr
+
+theorem readLen_written {c m L data m1 m2 m3} (w : WriteSpec c m L data m1 m2 m3) :
+    readLen (rd c m3) (L.off + 1) = .ok (data.length, L.off + hdrLen data.length) := by
+  have hfit := w.fits
+  have hl2 := w.len2
+  have har := w.area
+  unfold readLen
+  by_cases hn : data.length < 255
+  · have h2 : hdrLen data.length = 2 := by unfold hdrLen; simp [hn]
+    have : m3[L.off + 1]? = some data.length := by
+      rw [w.m3_eq, if_pos hn]; exact get_set_eq _ _ _ (by omega)
+    rw [(rd_ok_iff c m3 _ _).2 this, Py.bind_ok, if_neg (by omega), h2]
+  · have h4 : hdrLen data.length = 4 := by unfold hdrLen; simp [hn]
+    have e1 : m3[L.off + 1]? = some 255 := by
+      rw [w.m3_eq, if_neg hn, get_set_ne _ _ _ _ (by omega), get_set_ne _ _ _ _ (by omega)]
+      exact get_set_eq _ _ _ (by omega)
+    have e2 : m3[L.off + 1 + 1]? = some (data.length / 256) := by
+      rw [w.m3_eq, if_neg hn, get_set_ne _ _ _ _ (by omega)]
+      exact get_set_eq _ _ _ (by simp; omega)
+    have e3 : m3[L.off + 1 + 2]? = some (data.length % 256) := by
+      rw [w.m3_eq, if_neg hn]
+      exact get_set_eq _ _ _ (by simp; omega)
+    rw [(rd_ok_iff c m3 _ _).2 e1, Py.bind_ok, if_pos rfl, (rd_ok_iff c m3 _ _).2 e2, Py.bind_ok,
+      (rd_ok_iff c m3 _ _).2 e3, Py.bind_ok, h4]
+    have := Nat.div_add_mod data.length 256
+    congr 2 <;> omega
+
+theorem roundtrip (c : Cfg) (m : Bytes) (L : Layout) (data : Bytes)
+    (hr : ReadsAs c m L) (hwf : WF c m L) (hcap : (data.length : Int) ≤ L.cap) :
+    ∃ m1 m2 m3, WriteSpec c m L data m1 m2 m3 ∧ ReadsAs c m3 { L with ndef := data } := by
+  obtain ⟨m1, m2, m3, w⟩ := write_spec c m L data hr.cap hwf.2.2.2.1 hcap
+  refine ⟨m1, m2, m3, w, ?_⟩
+  have hcc := hwf.1
+  have hst := hwf.2.2.1
+  have hb : ∀ x, x < L.off + 1 → m3[x]? = m[x]? := fun x hx => (w.below x hx).2.2
+  have hrd : ∀ x, x < L.off + 1 → rd c m3 x = rd c m x := fun x hx => rd_congr c m m3 x (hb x hx)
+  refine ⟨by rw [hrd _ (by omega)]; exact hr.magic, ?_, ?_, ?_, pre_stable c m m3 L hwf hb, ?_, hr.cap⟩
+  · rw [hrd _ (by omega)]; exact hr.ver
+  · rw [hrd _ (by omega)]; exact hr.acc
+  · rw [hrd _ (by omega)]; exact hr.size
+  · have hrl := readLen_written w
+    refine ⟨(data.length, L.off + hdrLen data.length), hrl, ?_⟩
+    show fetch (rd c m3) L.skip data.length (L.off + hdrLen data.length) = .ok data
+    rw [fetch_congr c L.skip m2 m3 _ _ (fun x h1 _ => w.m3_out x (Or.inr h1))]
+    exact w.m2_val
+
 end NfcVerif.Tlv
